@@ -42,6 +42,8 @@ def p1(prog, ctx):
             for st in walk_no_nested(meths["__init__"]):
                 if isinstance(st, ast.Assign) and dotted(st.targets[0]) == "self.read_groups" and isinstance(st.value, ast.Set):
                     init_groups |= {src(e) for e in st.value.elts}
+        from ..engine import inline
+        f = inline.inlined(prog, f)          # a registering helper (add to read_groups and return) is analysed in place
         for p in flow.paths(f):
             if p.exit == "raise":
                 continue
@@ -99,6 +101,15 @@ def p2(prog, ctx):
                         and src(st.targets[0].slice) == k_name and src(st.value) == i_name \
                         and (dotted(st.targets[0].value) or "").startswith("self."):
                     tables.append((dotted(st.targets[0].value), it.args[0], loop))
+        # ... or the same as a comprehension:  self.D = {k: i for i, k in enumerate(X)}  (starts empty and is injective by construction)
+        for st in walk_no_nested(init):
+            if isinstance(st, ast.Assign) and isinstance(st.value, ast.DictComp) and len(st.value.generators) == 1 \
+                    and (dotted(st.targets[0]) or "").startswith("self."):
+                g = st.value.generators[0]
+                if isinstance(g.iter, ast.Call) and dotted(g.iter.func) == "enumerate" and g.iter.args and isinstance(g.target, ast.Tuple) \
+                        and len(g.target.elts) == 2 and not g.ifs and src(st.value.key) == src(g.target.elts[1]) \
+                        and src(st.value.value) == src(g.target.elts[0]):
+                    tables.append((dotted(st.targets[0]), g.iter.args[0], st))
         if not tables:
             continue
         # ordered lists of this class that are indexed by a non-constant
@@ -123,7 +134,7 @@ def p2(prog, ctx):
                 if same:
                     ctx.ok("P2", "%s:%d" % (m.rel, loop.lineno), "%s: %s numbered from %s, the sequence %s is built from" % (c.name, D, src(X), L))
                 else:
-                    ctx.fail("P2", loop, "%s.__init__" % c.name, "for %s in enumerate(%s)" % (src(loop.target), src(X)),
+                    ctx.fail("P2", loop, "%s.__init__" % c.name, "table %s numbered by enumerate(%s)" % (D, src(X)),
                              "%s numbers the groups by iterating %s but %s (indexed with those numbers in this class) is %s: "
                              "the two orders differ whenever %s is an unordered set, so counts are printed under other groups' names"
                              % (D, src(X), L, " / ".join(src(v) for v in defs), src(X)))
@@ -244,7 +255,10 @@ def p3(prog, ctx):
     mat = [n for n in walk_no_nested(d) if isinstance(n, ast.ListComp) and "group_numeric_ids" in src(n)]
     if len(lin) != 1 or len(mat) != 1:
         raise AnalysisError("dump_grouped: linear/matrix writers not found")
-    if "self.ordered_groups[group_id]" not in _arg_text(lin[0]) or "self.feature_counter[feature_id]" not in src(mat[0]):
+    from ..engine.dataflow import single_def_env
+    denv = single_def_env(d)
+    mat_text = src(symexec.subst(mat[0], denv))
+    if not re.search(r"self\.ordered_groups\[\w+\]", _arg_text(lin[0])) or "self.feature_counter[feature_id]" not in mat_text:
         ctx.fail("P3", lin[0], d._qualname, src(lin[0]), "linear rendering does not name groups through ordered_groups[numeric id]")
     else:
         ctx.ok("P3", "%s:%d" % (LRC, lin[0].lineno), "linear: ordered_groups[numeric id]; matrix: counter.get(group_numeric_ids[name]) over the same table")
